@@ -737,7 +737,7 @@ class Spell:
         self.fi = fi
         self.Q, self.y, self.noise, self.proj = names
         self.env = {
-            self.proj: ('proj',) + {'str': ('str', 'name'), 'list': ('list', 'attrs'), 'tuple': ('tuple', 'attrs')}[kind],
+            self.proj: ('proj',) + {'str': ('str', 'name'), 'strsub': ('strsub', 'name'), 'list': ('list', 'attrs'), 'tuple': ('tuple', 'attrs')}[kind],
             self.Q: ('q', 'given') if q_given else ('q', 'none'),
             self.y: ('in', 'y'), self.noise: ('in', 'noise'),
         }
@@ -751,13 +751,13 @@ class Spell:
         if isinstance(e, ast.Tuple) and len(e.elts) == 1:
             v = self.val(e.elts[0])
             if v[0] == 'proj':
-                return ('proj', 'tuple', 'attrs' if v[1] == 'str' else 'nested sequence')
+                return ('proj', 'tuple', 'attrs' if v[1] in ('str', 'strsub') else 'nested sequence')
         if isinstance(e, ast.Tuple):
             return ('tuple4',) + tuple(self.val(x) for x in e.elts) if len(e.elts) == 4 else ('tupleof',) + tuple(self.val(x) for x in e.elts)
         if isinstance(e, ast.List) and len(e.elts) == 1:
             v = self.val(e.elts[0])
             if v[0] == 'proj':
-                return ('proj', 'list', 'attrs' if v[1] == 'str' else 'nested sequence')
+                return ('proj', 'list', 'attrs' if v[1] in ('str', 'strsub') else 'nested sequence')
         if isinstance(e, ast.Tuple) and len(e.elts) == 1:
             pass
         if isinstance(e, ast.Call):
@@ -798,6 +798,12 @@ class Spell:
                 if v[0] == 'proj':
                     same = v[1] == r.id
                     return same if isinstance(op, (ast.Is, ast.Eq)) else (not same)
+            if isinstance(l, ast.Call) and U(l.func) == 'type' and isinstance(r, (ast.Tuple, ast.List, ast.Set)) and isinstance(op, (ast.In, ast.NotIn)) \
+                    and all(isinstance(x, ast.Name) for x in r.elts):
+                v = self.val(l.args[0])
+                if v[0] == 'proj':
+                    inside = v[1] in [x.id for x in r.elts]
+                    return inside if isinstance(op, ast.In) else (not inside)
             if isinstance(r, ast.Constant) and r.value is None:
                 v = self.val(l)
                 if v[0] == 'q':
@@ -808,6 +814,8 @@ class Spell:
             if v[0] == 'proj':
                 k = t.args[1]
                 ks = [U(x) for x in k.elts] if isinstance(k, ast.Tuple) else [U(k)]
+                if v[1] == 'strsub':                          # an instance of a subclass of str (np.str_): a str, not exactly `str`
+                    return 'str' in ks or 'np.str_' in ks
                 return v[1] in ks
         return None
 
@@ -868,11 +876,11 @@ def check_fix(ctx, fi, est):
     names = unpack4(loop)
     Q, y, noise, proj = names
     acc = None
-    for kind in ('str', 'list', 'tuple'):
+    for kind in ('str', 'strsub', 'list', 'tuple'):
         for q_given in (True, False):
             sp = Spell(fi, names, kind, q_given)
             sp.run(loop.body)
-            label = 'proj as %s, Q %s' % (kind, 'given' if q_given else 'omitted')
+            label = 'proj as %s, Q %s' % ({'strsub': 'str subclass (np.str_)'}.get(kind, kind), 'given' if q_given else 'omitted')
             if len(sp.appended) != 1:
                 raise AnalysisError('fix_measurements [%s]: expected one collected measurement per iteration, found %d' % (label, len(sp.appended)))
             stmt, acc, tup = sp.appended[0]
